@@ -1,7 +1,7 @@
 use anyhow::{bail, ensure};
 use itertools::Itertools;
 
-use crate::mir::{Device, EnumGenerationStyle, EnumValue, FieldConversion, Unique};
+use crate::mir::{BaseType, Device, EnumGenerationStyle, EnumValue, FieldConversion, Unique};
 
 use super::recurse_objects_mut;
 
@@ -97,6 +97,20 @@ pub fn run_pass(device: &mut Device) -> anyhow::Result<()> {
                         &field.name,
                         too_big_variant.0
                     )
+                }
+
+                // Check if the enum has variants that can never be read from an unsigned field
+                if field.base_type != BaseType::Int {
+                    if let Some(too_small_variant) = seen_values.iter().find(|(val, _)| *val < 0) {
+                        bail!(
+                            "The value of variant \"{}\" is too low for enum \"{}\" in object \"{}\" on field \"{}\": {} (min = 0)",
+                            too_small_variant.1,
+                            &ec.name,
+                            object_name,
+                            &field.name,
+                            too_small_variant.0
+                        )
+                    }
                 }
 
                 // Check whether the enum has more than one default
